@@ -180,7 +180,8 @@ class World(BaseWorld):
             bounds = [int(b) if b is not None and b == int(b) else b for b in bounds]
         if self.prop == "C08":
             flo, fhi = self.f.extrema() if self.f.variables() else (self.f.offset(), self.f.offset())
-            lam = float(fhi - flo) + 1 + rng.choice([0, 0, 0.5, 1, 3])
+            # any weight that EXCEEDS max f - min f qualifies: also ones that exceed it only barely
+            lam = float(fhi - flo) + rng.choice([1, 1, 1.5, 2, 4, 0.125, 0.25, 0.5])
             if lam == int(lam):
                 lam = int(lam)
         else:
@@ -207,7 +208,7 @@ class World(BaseWorld):
             return None
         args = rng.sample(L, need)
         flo, fhi = self.f.extrema() if self.f.variables() else (self.f.offset(), self.f.offset())
-        lam = float(fhi - flo) + 1 + rng.choice([0, 0, 1, 2.5])
+        lam = float(fhi - flo) + rng.choice([1, 1, 2, 3.5, 0.125, 0.5])
         if lam == int(lam):
             lam = int(lam)
         return {"op": "logic", "method": name, "args": [enc_label(a) for a in args], "lam": lam}
